@@ -18,9 +18,9 @@ import vlib
 from vlib import ToolError, log
 
 TIERS = {
-    "quick": {"C05": dict(shards=16, positions=5, depth=3, validate=1, cap=20000, max_men=7),
+    "quick": {"C05": dict(shards=16, positions=5, depth=3, validate=1, cap=30000, max_men=7, fixed=4, win_positions=400, win_depth=3),
               "C06": dict(shards=16, positions=2, depth=3, validate=0, cap=6000, max_men=6, kstep=1)},
-    "thorough": {"C05": dict(shards=16, positions=150, depth=3, validate=6, cap=40000, max_men=8),
+    "thorough": {"C05": dict(shards=16, positions=150, depth=3, validate=6, cap=60000, max_men=8, fixed=5, win_positions=4000, win_depth=4),
                  "C06": dict(shards=16, positions=40, depth=3, validate=0, cap=12000, max_men=7, kstep=1)},
 }
 
@@ -28,7 +28,7 @@ TIERS = {
 def _args(prop, T, seed, i, out, fens=None):
     a = ["search-dump", "--seed", seed * 977 + i, "--positions", T["positions"], "--depth", T["depth"], "--mode",
          "c06" if prop == "C06" else "c05", "--cap", T["cap"], "--max-men", T["max_men"], "--validate-graphs", T["validate"],
-         "--kstep", T.get("kstep", 1), "--out", out]
+         "--kstep", T.get("kstep", 1), "--fixed-depth", T.get("fixed", 0), "--out", out]
     if fens:
         a += ["--fens", fens]
     return a
@@ -49,6 +49,10 @@ def _audit(prop, exe, work, args, tag, R):
         for f in e["fresh"]:
             stats["searches"] += 1
             stats["claims"] += len(f.get("entries", []))
+            if f.get("fixed"):
+                stats["fixed_depth_searches"] = stats.get("fixed_depth_searches", 0) + 1
+                if f.get("deeper", 0) > 0:
+                    stats["fixed_depth_searches_excluded_deeper_entry_reused"] = stats.get("fixed_depth_searches_excluded_deeper_entry_reused", 0) + 1
         if "abort" in e:
             stats["claims"] += len(e["abort"]["claims"])
             stats["results"] += len(e["abort"]["results"])
@@ -75,6 +79,26 @@ def _audit(prop, exe, work, args, tag, R):
                         prop, [n[1] for n in mine], e["rootfen"], e["d"], (wit.group(0) if wit else rj["diag"])[:900]),
                     {"kind": "position", "fen": e["rootfen"], "depth": e["d"]})
     return matched, stats
+
+
+def _windows(exe, work, args, tag, R):
+    """C05 on arbitrary positions: the alpha-beta contract at the root (WindowTrace.tla)"""
+    tp = args[args.index("--out") + 1]
+    vlib.run_harness(exe, args, stdout_path=os.path.join(work, "wstdout_%s.txt" % tag), timeout=7200)
+    n = sum(1 for _ in open(tp))
+    if n == 0:
+        return 0, 0
+    probes = sum(len(json.loads(l).get("probes", [])) for l in open(tp))
+    matched, results, rej = vlib.validate_trace("WindowTrace", "WindowTrace.cfg", tp, lambda e: True, timeout=7200, max_rejections=4)
+    for r in results:
+        R.add_tlc(r)
+    for rj in rej:
+        names = rj["failed"] or [("C05", "no_action")]
+        e = rj["event"]
+        R.violation("C05:%s:%s:d%s" % (names[0][1], e.get("fen"), e.get("d")),
+                    "C05 [alpha-beta contract at the root] position '%s' depth %s: a search window changes the value; %s" % (e.get("fen"), e.get("d"), rj["diag"][-500:]),
+                    {"kind": "window", "fen": e.get("fen"), "depth": e.get("d")})
+    return matched, probes
 
 
 def run(prop, tier, seed):
@@ -104,7 +128,23 @@ def run(prop, tier, seed):
                     s["abort"]["results"] = e["abort"]["results"][:4]
                 R.sample(s)
                 sample_done = True
-        R.coverage["traces_validated_against_impl"] = tot.get("positions", 0)
+        if prop == "C05":
+            def wshard(i):
+                out = os.path.join(work, "win_%d.ndjson" % i)
+                return out, _windows(exe, work, ["search-window", "--seed", seed * 389 + i, "--positions", T["win_positions"], "--maxdepth", T["win_depth"],
+                                                 "--out", out], str(i), R)
+            wev = wpr = 0
+            for out, (m, pr) in vlib.parallel(wshard, range(T["shards"])):
+                wev += m
+                wpr += pr
+                if len(R.coverage["samples"]) < 3 and os.path.getsize(out):
+                    e = json.loads(open(out).readline())
+                    e.pop("pos", None)
+                    R.sample(e)
+            R.coverage["alpha_beta_contract"] = {"positions_x_depths": wev, "window_probes": wpr,
+                                                 "note": "positions of every game phase, no finite-quiescence restriction"}
+            log("[C05] alpha-beta contract: %d position/depth pairs, %d window probes" % (wev, wpr))
+        R.coverage["traces_validated_against_impl"] = tot.get("positions", 0) + R.coverage.get("alpha_beta_contract", {}).get("positions_x_depths", 0)
         R.coverage["graph_audit"] = tot
         R.coverage["events_matched"] = events
         if tot.get("positions", 0) == 0:
@@ -129,6 +169,12 @@ def replay(prop, payload):
     try:
         fl = os.path.join(work, "fens.txt")
         open(fl, "w").write(payload["fen"] + "\n")
+        if payload.get("kind") == "window":
+            out = os.path.join(work, "win.ndjson")
+            m, pr = _windows(exe, work, ["search-window", "--fens", fl, "--positions", 1, "--maxdepth", max(3, int(payload["depth"])), "--out", out], "r", R)
+            R.coverage["traces_validated_against_impl"] = m
+            R.sample(payload)
+            return R
         T = dict(TIERS["thorough"][prop], positions=1, depth=payload["depth"], validate=1, cap=200000)
         out = os.path.join(work, "dump.ndjson")
         matched, stats = _audit(prop, exe, work, _args(prop, T, 1, 0, out, fens=fl), "replay", R)
